@@ -1021,6 +1021,8 @@ cmd_delres(void) {
   ev_end();
 }
 
+static coap_oscore_conf_t *make_oscore_conf(const char *confhex, uint64_t start_seq, int who);
+
 static void
 cmd_sess(void) {
   /* sess <n> <sid> <proto> <remote> [local=addr] [ack_timeout_ms=] [arf_milli=] [max_retransmit=]
@@ -1044,6 +1046,9 @@ cmd_sess(void) {
     s = coap_new_client_session_psk(nd->ctx, l ? &local : NULL, &remote, proto, v, key,
                                     (unsigned)kl);
     free(key);
+  } else if ((v = kv("oscore", NULL))) {
+    coap_oscore_conf_t *c = make_oscore_conf(v, (uint64_t)kvi("start_seq", 0), atoi(tok[1]));
+    s = c ? coap_new_client_session_oscore(nd->ctx, l ? &local : NULL, &remote, proto, c) : NULL;
   } else {
     s = coap_new_client_session(nd->ctx, l ? &local : NULL, &remote, proto);
   }
@@ -1394,6 +1399,61 @@ cmd_peek(void) {
   }
 }
 
+static int
+save_ssn(uint64_t seq, void *param) {
+  ev_begin("ssn");
+  ev_int("who", (long)(intptr_t)param);
+  ev_int("seq", (long)seq);
+  ev_end();
+  return 1;
+}
+
+static coap_oscore_conf_t *
+make_oscore_conf(const char *confhex, uint64_t start_seq, int who) {
+  size_t len;
+  uint8_t *txt = vf_unhex(confhex, strlen(confhex), &len);
+  coap_str_const_t mem = {len, txt};
+  coap_oscore_conf_t *c = coap_new_oscore_conf(mem, save_ssn, (void *)(intptr_t)who, start_seq);
+  free(txt);
+  return c;
+}
+
+static void
+cmd_oscore_server(void) {
+  /* oscore_server <n> <conf text as hex> [start_seq=] */
+  node_t *nd = &nodes[atoi(tok[1])];
+  coap_oscore_conf_t *c = make_oscore_conf(tok[2], (uint64_t)kvi("start_seq", 0), atoi(tok[1]));
+  int r = c ? coap_context_oscore_server(nd->ctx, c) : 0;
+  ev_begin("oscore_server");
+  ev_int("ok", r);
+  ev_end();
+}
+
+static void
+cmd_peekosc(void) {
+  /* grey-box, auxiliary: replay state of every recipient context */
+  node_t *nd = &nodes[atoi(tok[1])];
+  oscore_ctx_t *o;
+  for (o = nd->ctx->p_osc_ctx; o; o = o->next) {
+    oscore_recipient_ctx_t *rc;
+    ev_begin("posc");
+    ev_int("sender_seq", o->sender_context ? (long)o->sender_context->seq : -1);
+    ev_int("window_size", (long)o->replay_window_size);
+    ev_end();
+    for (rc = o->recipient_chain; rc; rc = rc->next_recipient) {
+      char b[24];
+      ev_begin("precip");
+      if (rc->recipient_id)
+        ev_hex("rid", rc->recipient_id->s, rc->recipient_id->length);
+      ev_int("last_seq", (long)rc->last_seq);
+      snprintf(b, sizeof(b), "%016llx", (unsigned long long)rc->sliding_window);
+      ev_str("window", b);
+      ev_int("initial_state", rc->initial_state);
+      ev_end();
+    }
+  }
+}
+
 static void
 cmd_urihelpers(void) {
   /* urihelpers <n> <sid> <urihex>: coap_new_uri, coap_uri_into_optlist,
@@ -1498,7 +1558,7 @@ static void
 run_command(void) {
   const char *c = tok[0];
   static const char *noded[] = {"node", "ctx", "ep", "res", "delres", "sess", "send", "notify",
-                                "prepare", "io", "peek", "peekobs", "urihelpers", "verdict", "cancelobs", "release",
+                                "prepare", "io", "peek", "peekobs", "urihelpers", "oscore_server", "peekosc", "verdict", "cancelobs", "release",
                                 "disconnect", "appref", "apprelease", "freenode", NULL};
   int i;
   for (i = 0; noded[i]; i++)
@@ -1546,6 +1606,10 @@ run_command(void) {
     cmd_peekobs();
   else if (!strcmp(c, "urihelpers"))
     cmd_urihelpers();
+  else if (!strcmp(c, "oscore_server"))
+    cmd_oscore_server();
+  else if (!strcmp(c, "peekosc"))
+    cmd_peekosc();
   else if (!strcmp(c, "seed")) {
     prng_state = strtoull(tok[1], NULL, 10) * 2685821657736338717ULL + 1442695040888963407ULL;
     if (!prng_state)
